@@ -660,7 +660,7 @@ class Repo:
     def fold(self, module, e, _depth=0, symbolic=False, scope=None):
         """value of a constant expression.  symbolic=True: a constant of an imported non-repo module (`signal.SIGTERM`)
         folds to the symbol '@signal.SIGTERM' (the evaluator's representation of external constants)"""
-        if _depth > 12:
+        if _depth > 48:         # (a grammar assembled from named pieces nests a dozen concatenations deep)
             raise NotConst("too deep")
         f = lambda x: self.fold(module, x, _depth + 1, symbolic, scope)
         if scope and isinstance(e, ast.Name) and e.id in scope and scope[e.id] is not e:
